@@ -7,7 +7,7 @@
    correspondence check (flag per run), not a theorem: the model is a pure function. *)
 From Coq Require Import List ZArith QArith Permutation Lia.
 From MM Require Import Base.Num Base.GEComb Base.GESort Spec.Ucount Model.GEChoose Model.Udist Model.Utest
-  Proofs.Utest Proofs.UtestP Proofs.UtestLaws Proofs.UtestSym Proofs.UtestSymLaws.
+  Proofs.Utest Proofs.UtestP Proofs.UtestLaws Proofs.UtestSym Proofs.UtestSymLaws Check.GEMw Check.C03 Proofs.CheckMw Proofs.CheckC03.
 Import ListNotations.
 Local Open Scope Z_scope.
 
@@ -157,6 +157,20 @@ Theorem C03_continuity_correction : forall n1 n2 tu,
 Proof. exact numer2_textbook. Qed.
 Print Assumptions C03_continuity_correction.
 
+(* ---- what the correspondence check establishes (Check/C03.v over Check/GEMw.v) ---- *)
+(* a family of runs accepted with code V_OK: in every run the arguments (whole backing arrays) and the limit variables
+   are intact and every call agrees with the model result on the decoded inputs (run_ok, Proofs/CheckC03.v: status,
+   N1, N2, U exactly, P within tolerance of the specified value / of the tail expression over the implementation's
+   own Phi at the model's z); the laws above are theorems about that model result *)
+Theorem C03_check_ok_sound : forall rs tag, check_runs rs 0 V_OK 0 = (V_OK, tag, None) -> Forall run_ok rs.
+Proof. intros rs tag H. exact (proj2 (check_runs_ok_sound rs 0 V_OK 0 tag H ltac:(unfold V_OK; lia))). Qed.
+Print Assumptions C03_check_ok_sound.
+(* accepted with any code (no mismatch): additionally calls showing the known finding D2, only for the two-sided
+   alternative on a non-palindromic tie vector (run_accepted) *)
+Theorem C03_check_accept_sound : forall rs code tag, check_runs rs 0 V_OK 0 = (code, tag, None) -> Forall run_accepted rs.
+Proof. intros rs code tag H. exact (check_runs_accept_sound rs 0 V_OK 0 code tag H). Qed.
+Print Assumptions C03_check_accept_sound.
+
 (* ---------- non-vacuity ---------- *)
 Example C03_Z_instance : total_preorder Z.compare /\ eq_is_identity Z.compare.
 Proof. split; [exact (conj Zcmp_refl (conj Zcmp_antisym Zcmp_trans))|]. intros a b H. now apply Z.compare_eq. Qed.
@@ -181,3 +195,9 @@ Example C03_palindromic_swap :
    | MWExact 3 2 9 p ps, MWExact 2 3 3 p' ps' => Qred p = Qred p' /\ Qred p = Qred ps /\ Qred ps = Qred ps'
    | _, _ => False end).
 Proof. vm_compute. repeat split; reflexivity. Qed.
+(* the hypothesis of C03_check_ok_sound is satisfiable: a family of two runs (the pair and the swapped pair) accepted *)
+Example C03_check_accepts_example :
+  check_runs [mkRun 50 25 [1; 3; 3]%Q [1; 2]%Q [mkCall (-1) 0 3 2 (XFin (9 # 2)) (XFin (9 # 10)) (-1) (XFin 0) (XFin 0)] 1;
+              mkRun 50 25 [1; 2]%Q [1; 3; 3]%Q [mkCall 1 0 2 3 (XFin (3 # 2)) (XFin (9 # 10)) 1 (XFin 0) (XFin 0)] 1] 0 V_OK 0
+  = (V_OK, 34, None).
+Proof. vm_compute. reflexivity. Qed.
